@@ -29,6 +29,9 @@ def run_shard(ctx, spec):
     ex = hj.Explorer(mon, rnd)
     ex.fine_bars = bool(spec.get('fine'))
     ex.float_heights = bool(spec.get('float'))
+    if spec.get('bibs'):
+        ex.use_bibs(spec['bibs'])
+        ctx.count('eval.shards-with-bibs-%s' % spec['bibs'])
     if spec['w'] == 'bfs':
         ex.bfs(spec['nj'], spec['reg'], spec['jo'], part=spec['i'], nparts=spec['n'], split_depth=spec.get('split', 3),
                max_states=spec.get('max_states'))
@@ -57,6 +60,8 @@ def shards(tier, seed):
         s += [{'w': 'bfs', 'nj': 2, 'reg': 2, 'jo': 0, 'i': 0, 'n': 1, 'fine': True}]   # with sub-centimetre rises of the bar
         s += [{'w': 'walk', 'walks': 60, 'i': 100 + i} for i in range(5)]
         s += [{'w': 'walk', 'walks': 80, 'i': 120 + i, 'float': True} for i in range(3)]
+        s += [{'w': 'walk', 'walks': 80, 'i': 130, 'bibs': 'int0'}, {'w': 'walk', 'walks': 80, 'i': 131, 'bibs': 'zeros'},
+              {'w': 'bfs', 'nj': 2, 'reg': 1, 'jo': 1, 'i': 0, 'n': 1, 'bibs': 'int0'}]
         s += [{'w': 'probe', 'walks': 300 if i % 2 == 0 else 900, 'i': 200 + i, 'jo': i % 2} for i in range(16)]
         return s
     # (2 athletes, 2+2) is explored completely (374 k distinct states); the deeper / wider spaces are cut per shard
@@ -69,6 +74,8 @@ def shards(tier, seed):
     s += [{'w': 'bfs', 'nj': 2, 'reg': 2, 'jo': 1, 'i': i, 'n': 8, 'split': 3, 'fine': True} for i in range(8)]
     s += [{'w': 'walk', 'walks': 1250, 'i': 100 + i} for i in range(16)]
     s += [{'w': 'walk', 'walks': 1250, 'i': 150 + i, 'float': True} for i in range(8)]
+    s += [{'w': 'walk', 'walks': 1250, 'i': 160 + i, 'bibs': ('int0', 'zeros')[i % 2]} for i in range(4)]
+    s += [{'w': 'bfs', 'nj': 2, 'reg': 2, 'jo': 1, 'i': i, 'n': 4, 'bibs': 'int0'} for i in range(4)]
     s += [{'w': 'probe', 'walks': 6000, 'i': 200 + i, 'jo': i % 2} for i in range(16)]
     return s
 
@@ -81,7 +88,9 @@ def replay(ctx, cases):
         comp = mon.H()
         for m, a in c['history'] + [c['call']]:
             try:
-                if m == 'add_jumper':
+                if m == 'read':
+                    hj.READERS[a](comp)
+                elif m == 'add_jumper':
                     comp.add_jumper(bib=a)
                 elif m == 'set_bar_height':
                     comp.set_bar_height(Decimal(a))
